@@ -8,6 +8,7 @@ import numpy as np
 import numpy.typing as npt
 
 from .norms import Slobodeckij
+from .parametrization import PiecewisePolygon
 from .quadrature import ProductScheme2D, gauss_quadrature_scheme
 
 
@@ -192,6 +193,9 @@ class ErrorEstimator:
     def residual(self, elems, Phi, SL, M0u0=None, g=None, SL_exact_eval=False):
         """ Returns the residual function. """
         SL._init_elems(elems)
+        # The closed forms only hold on straight pieces.
+        SL_exact_eval = SL_exact_eval and isinstance(
+            self.bdr_mesh.gamma_space, PiecewisePolygon)
 
         @cython.locals(VPhi=cython.double)
         def residual(t: npt.ArrayLike, x_hat: npt.ArrayLike,
